@@ -37,7 +37,7 @@ def gen_case(rng, force_shape=None):
     step = rng.choice(STEPS)
     n = rng.randrange(3, 8)
     start = datetime(rng.choice([2018, 2019, 2020, 2021]), rng.randrange(1, 13), rng.randrange(1, 28), rng.randrange(24), rng.randrange(60), rng.choice([0, 0, rng.randrange(60)]))
-    shape = rng.choice(["inside", "spanning", "start_on", "end_on", "both_on", "neither", "neither", "at_epoch", "dyadic", "abutting", "abutting", "late_tail", "before_epoch"])
+    shape = rng.choice(["inside", "spanning", "start_on", "end_on", "both_on", "neither", "neither", "at_epoch", "dyadic", "abutting", "abutting", "late_tail", "before_epoch", "zero_length"])
     if shape == "late_tail" and rng.random() < 0.5:
         shape = "neither"  # the long runs are expensive: half as frequent
     if force_shape:
@@ -80,6 +80,10 @@ def gen_case(rng, force_shape=None):
         k_end = rng.randrange(30, n)
         b = k_end * step + 1  # one second: the smallest whole-second tail
         a = b - rng.randrange(step + 10, 2 * step)
+    elif shape == "zero_length":
+        # an empty interval (t_end == t_start, also what a finite_burn without an end time means): no thrust at all
+        a = rng.randrange(1, n) * step if rng.random() < 0.4 else rng.randrange(1, total - 1)
+        b = a
     elif shape == "at_epoch":
         a = 0
         b = rng.randrange(1, total)
@@ -100,8 +104,9 @@ def gen_case(rng, force_shape=None):
             a += 1
         if b % step == 0:
             b -= 1
-    b = max(b, a + 1)
-    b = min(b, total - 1) if b % step else b
+    if shape != "zero_length":
+        b = max(b, a + 1)
+        b = min(b, total - 1) if b % step else b
     kind = rng.choice(["burn_eci", "burn_ntw", "spiral", "plane_change"])
     mag = rng.choice([1e-5, 5e-5, 2e-4])
     vec = [rng.choice([-1, 1]) * mag * rng.uniform(0.3, 1) for _ in range(3)]
@@ -126,13 +131,14 @@ def gen_case(rng, force_shape=None):
     impulse = None
     if second is None and kind != "plane_change" and b - a >= 4 and a >= 16 and rng.random() < 0.25:
         # an impulsive manoeuvre of the same satellite strictly inside the burn: the burn goes on after it
-        impulse = {"t": rng.randrange(a + 1, b - 1), "dv": [rng.choice([-1, 1]) * rng.uniform(1e-3, 1e-2) for _ in range(3)]}
+        # (a third of them exactly on a switching instant of the burn: the satellite's two events then coincide)
+        impulse = {"t": rng.choice([rng.randrange(a + 1, b - 1), rng.randrange(a + 1, b - 1), a, b]), "dv": [rng.choice([-1, 1]) * rng.uniform(1e-3, 1e-2) for _ in range(3)]}
     if second is None and shape in ("inside", "spanning", "neither", "start_on", "end_on") and rng.random() < 0.3:
         # switching times with a fractional second
         fa, fb = rng.choice([0.4, 0.25, 0.6, 0.5]), rng.choice([0.6, 0.3, 0.75, 0.5])
         if b + fb < total and (impulse is None or impulse["t"] > a + 1):
             a, b = a + fa, b + fb
-    return {"kind": "burn", "impulse": impulse, "twin": twin, "start": start.isoformat(), "step": step, "n": n, "t_on": a, "t_off": b, "burn": kind, "vec": vec, "mag": rng.choice([-1, 1]) * mag, "second": second,
+    return {"kind": "burn", "no_end_time": shape == "zero_length" and rng.random() < 0.5, "impulse": impulse, "twin": twin, "start": start.isoformat(), "step": step, "n": n, "t_on": a, "t_off": b, "burn": kind, "vec": vec, "mag": rng.choice([-1, 1]) * mag, "second": second,
             "model": rng.choice(["special_perturbations", "special_perturbations", "special_perturbations", "two_body"]), "shape": shape,
             "orbit": [rng.choice([6900.0, 7300.0, 12000.0, 42164.0]), rng.uniform(0, 120), rng.uniform(0, 360), rng.uniform(0, 360)]}
 
@@ -151,6 +157,8 @@ def build_cfg(case):
     else:
         ev = {"scope": "agent_propagation", "scope_instance_id": TID, "start_time": sk.iso(t1), "end_time": sk.iso(t2), "event_type": "finite_maneuver",
               "maneuver_mag": case["mag"], "maneuver_type": case["burn"], "planned": False}
+    if case.get("no_end_time"):
+        del ev["end_time"]      # documented default: the end time is the start time
     evs = [ev]
     if case.get("impulse"):
         evs.append({"scope": "agent_propagation", "scope_instance_id": TID, "start_time": sk.iso(start + timedelta(seconds=case["impulse"]["t"])), "event_type": "impulse",
@@ -358,8 +366,12 @@ def eval_case(ctx, case):
         key = f"burn-ignored-{case['model']}"
     elif case.get("second"):
         key = "burn-trajectory-abutting-burns"
+    elif case.get("impulse") and case["impulse"]["t"] in (case["t_on"], case["t_off"]):
+        key = "burn-trajectory-impulse-on-a-switching-instant"
     elif case.get("impulse"):
         key = "burn-trajectory-impulse-inside-burn"
+    elif case["shape"] == "zero_length":
+        key = "burn-thrusts-over-an-empty-interval"
     elif case["shape"] == "before_epoch":
         key = "burn-trajectory-started-before-epoch"
     elif case["shape"] in ("at_epoch", "dyadic"):
@@ -378,12 +390,12 @@ def eval_case(ctx, case):
 
 def run(ctx):
     rng = ctx.pyrng("c15")
-    n = ctx.scale(64, 20000)
+    n = ctx.scale(160, 20000)
     for i in range(n):
         if ctx.time_left() < 10:
             break
         # every run contains the expensive but otherwise unreachable shapes at least once
-        forced = {0: "late_tail", 1: "dyadic", 2: "at_epoch", 3: "abutting", 4: "before_epoch"}.get(ctx.shard) if i == 0 else None
+        forced = {0: "late_tail", 1: "dyadic", 2: "at_epoch", 3: "abutting", 4: "before_epoch", 5: "zero_length"}.get(ctx.shard) if i == 0 else None
         case = gen_case(rng, forced)
         eval_case(ctx, case)
         ctx.count("shape_" + case["shape"])
